@@ -169,6 +169,11 @@ def run(ctx):
   import suite
   for cfgname in ('MC_ObjLife.cfg', 'MC_ObjLife_points.cfg'):
     ctx.model('MC_ObjLife', cfgname, workers=2, tag='MC_ObjLife_' + cfgname[:-4])
+  # the same machine over UNBOUNDED digests / thresholds / dimensions: Apalache discharges the inductive invariant
+  # (Init => IndInv; IndInv /\ Next => IndInv') and the action invariants from any state satisfying it
+  core.run_apalache(ctx, 'ObjLifeApa', 'Init', 'IndInv', 0)
+  core.run_apalache(ctx, 'ObjLifeApa', 'IndInit', 'IndInv', 1)
+  core.run_apalache(ctx, 'ObjLifeApa', 'IndInit', 'ActionInv', 1)
   evs, summary = core.record_suite_calls(os.path.join(ctx.work, 'suite'), files=None if ctx.quick else ['test/'])
   lp = suite.judge_life(ctx, evs, 400 if ctx.quick else 0)
   ctx.extra['suite_object_histories']['pytest_summary'] = summary
